@@ -15,6 +15,15 @@ def latticeOf (s : String) : Lattice :=
 def quatOfList (l : List Float) : Quat := mkQuat (l.getD 0 0) (l.getD 1 0) (l.getD 2 0) (l.getD 3 0)
 def quatToList (q : Quat) : List Float := [q 0, q 1, q 2, q 3]
 
+/-- four evaluated components -/
+structure Q4 where
+  x : Float
+  y : Float
+  z : Float
+  w : Float
+def Q4.ofQuat (q : Quat) : Q4 := ⟨q 0, q 1, q 2, q 3⟩
+def Q4.toQuat (p : Q4) : Quat := mkQuat p.x p.y p.z p.w
+
 def chunk4 : Nat → List Float → List Quat
   | 0, _ => []
   | n + 1, l => quatOfList (l.take 4) :: chunk4 n (l.drop 4)
@@ -46,8 +55,9 @@ def handle (toks : List String) : Option String :=
     let sys := latticeOf sys
     let ops := symmetryOperations sys
     -- variants of every grain once (same values as `misorientationCoded` on each pair)
-    let vars := qs.map fun q => ops.map fun s => (applyOp s q).memo
-    some (fmtFs (ModelD.MIndex.pairValues (fun A B => minPairAngle A B) vars))
+    -- (materialised as strict records: compiled closures of type `Quat` would recompute the product on every access)
+    let vars : List (List Q4) := qs.map fun q => ops.map fun s => Q4.ofQuat (applyOp s q)
+    some (fmtFs (ModelD.MIndex.pairValues (fun A B => minPairAngle (A.map Q4.toQuat) (B.map Q4.toQuat)) vars))
   | "quat_minangle" :: na :: nb :: rest =>
     let (a, rest) := takeF (4 * na.toNat!) rest
     let (b, _) := takeF (4 * nb.toNat!) rest
